@@ -692,6 +692,8 @@ type recConn struct {
 	calls []string
 	times []time.Time
 	dl    []time.Time
+	// failArm != nil: arming a deadline fails with this error
+	failArm error
 }
 
 func (c *recConn) rec(what string, d time.Time) {
@@ -707,8 +709,8 @@ func (c *recConn) Close() error                       { c.rec("close", time.Time
 func (c *recConn) LocalAddr() net.Addr                { return nil }
 func (c *recConn) RemoteAddr() net.Addr               { return nil }
 func (c *recConn) SetDeadline(t time.Time) error      { c.rec("setdeadline", t); return nil }
-func (c *recConn) SetReadDeadline(t time.Time) error  { c.rec("setread", t); return nil }
-func (c *recConn) SetWriteDeadline(t time.Time) error { c.rec("setwrite", t); return nil }
+func (c *recConn) SetReadDeadline(t time.Time) error  { c.rec("setread", t); return c.failArm }
+func (c *recConn) SetWriteDeadline(t time.Time) error { c.rec("setwrite", t); return c.failArm }
 
 func c14timed(rep *vh.Report, seed uint64) {
 	r := vh.Sub(seed, "c14-timed")
@@ -767,6 +769,37 @@ func c14timed(rep *vh.Report, seed uint64) {
 			rep.Violation("ep=timednetconn what=deadline:close", "Close was not forwarded to the wrapped connection", nil)
 		}
 		rep.Distinct("timed", run, n)
+	}
+	// a connection on which the deadline cannot be armed: the call must fail with that error instead of
+	// reading / writing without a bound
+	for run := 0; run < vh.Pick(10, 100); run++ {
+		armErr := fmt.Errorf("vf-arm-%d", run)
+		rc := &recConn{failArm: armErr}
+		tc := timednetconn.New(time.Second, time.Second, rc)
+		buf := make([]byte, 8)
+		for i := 0; i < 4+r.Intn(10); i++ {
+			var err error
+			what := "w"
+			if r.Chance(1, 2) {
+				what = "r"
+				_, err = tc.Read(buf)
+			} else {
+				_, err = tc.Write(buf)
+			}
+			rep.Eval(1)
+			rep.Count("timed_unarmed_calls", 1)
+			if !errors.Is(err, armErr) {
+				rep.Violation("ep=timednetconn what=deadline:unarmed:"+what, fmt.Sprintf("arming the deadline failed but the call returned %v instead of that error", err), nil)
+				break
+			}
+		}
+		for _, c := range rc.calls {
+			if c == "read" || c == "write" {
+				rep.Violation("ep=timednetconn what=deadline:unarmed", "a "+c+" went to the connection although its deadline could not be armed (an unbounded call)", map[string]interface{}{"calls": rc.calls})
+				break
+			}
+		}
+		rep.Distinct("timed-unarmed", run)
 	}
 }
 
